@@ -159,6 +159,27 @@ theorem rebuild_flatten_operator_valued_kwargs (rest : List Leaf) :
     call (todayCfg .f32) (tree exUserWrap) (rep exUserWrap ++ rest) = some exUserWrap :=
   ⟨by decide +kernel, rebuild_flatten _ _ (by decide +kernel) (by decide +kernel) rest⟩
 
+/-- today's stored form of `ZeroLinearOperator(2, 2, dtype=float64)` -/
+def exZeroToday : Op :=
+  .node "ZeroLinearOperator" [.val (.int 2), .val (.int 2)] [] [] [("device", .none), ("dtype", .dt .f64)] []
+
+/-- `Sum(Interpolated(Zero), Dense, Zero)`: a ZeroLinearOperator nested at two depths -/
+def exZeroNested : Op :=
+  .node "SumLinearOperator"
+    [.node "InterpolatedLinearOperator" [exZeroToday, tL 1 .i64, tL 2 .f32, tL 3 .i64, tL 4 .f32] [] [] [] [],
+     .node "DenseLinearOperator" [tL 5 .f32] [] [] [] [], exZeroToday] [] [] [] []
+
+/-- **ZeroLinearOperator has an empty representation and a total rebuild (since /repo 7504982)**: it contributes no
+tensors, its private tree re-creates it from sizes / dtype / device, and operators containing Zeros at any depth are
+covered by `rebuild_flatten` / `rebuild_any_tensors` (instantiated here for a Zero nested at two depths). -/
+theorem rebuild_flatten_nested_zero_today (rest : List Leaf) :
+    rep exZeroToday = [] ∧ (rep exZeroNested).length = 5 ∧
+    call (todayCfg .f32) (tree exZeroToday) rest = some exZeroToday ∧
+    call (todayCfg .f32) (tree exZeroNested) (rep exZeroNested ++ rest) = some exZeroNested := by
+  refine ⟨by decide +kernel, by decide +kernel, ?_, rebuild_flatten _ _ (by decide +kernel) (by decide +kernel) rest⟩
+  have := rebuild_flatten (todayCfg .f32) exZeroToday (by decide +kernel) (by decide +kernel) rest
+  simpa [show rep exZeroToday = [] by decide +kernel] using this
+
 /-- clone / to / type of today's upper-orientation operators keep the skeleton (hence `upper = True`). -/
 theorem conversions_keep_upper_today (m : Mode) :
     ∃ o', conv (todayCfg .f32) m (exCholToday true) = some o' ∧ skel o' = skel (exCholToday true) :=
@@ -274,8 +295,7 @@ theorem overrides_reviewed :
        ("TransposePermutationLinearOperator", "type"), ("TransposePermutationLinearOperator", "dtype"),
        ("TransposePermutationLinearOperator", "device"), ("ZeroLinearOperator", "dtype"), ("ZeroLinearOperator", "device"),
        ("ZeroLinearOperator", "to"), ("ZeroLinearOperator", "type"),
-       -- Zero's private representation tree (empty representation, rebuilt from sizes/dtype/device) is NOT mirrored by
-       -- `tree`/`call`: operators containing a Zero are outside `representable`; checked on the implementation only.
+       -- Zero's empty representation and private representation tree are mirrored by `representable` / `RT.zero`
        ("ZeroLinearOperator", "representation"), ("ZeroLinearOperator", "representation_tree"),
        ("AddedDiagLinearOperator", "evaluate_kernel"), ("MulLinearOperator", "representation"),
        ("MulLinearOperator", "representation_tree")] := by
